@@ -168,7 +168,9 @@ class Shaper:
             self._target(s.target, f"each({ittext})", env)
             e1 = dict(env)
             self._loop_vars(s, e1)
+            self._depth = getattr(self, "_depth", 0) + 1
             body = self._body(f, s.body, e1)
+            self._depth -= 1
             for k in e1:
                 if k in env and env[k] != e1[k]:
                     env[k] = self._alpha(k)
@@ -184,7 +186,9 @@ class Shaper:
             e1 = env
             self._loop_vars(s, e1)
             cond = self._expr(f, s.test, e1, out)
+            self._depth = getattr(self, "_depth", 0) + 1
             body = self._body(f, s.body, e1)
+            self._depth -= 1
             out.append(("while", cond, body))
             return
         if isinstance(s, ast.Try):
@@ -293,6 +297,9 @@ class Shaper:
             cur = env.get(t.id)
             if cur is not None and cur == self._alpha(t.id):
                 out.append(("set", t.id, val))
+                if getattr(self, "_depth", 0) == 0 and self._alpha(t.id) not in val:
+                    # straight-line code after the loops: the name now stands for this value
+                    env[t.id] = val
             else:
                 env[t.id] = val
         elif isinstance(t, (ast.Tuple, ast.List)):
@@ -793,7 +800,8 @@ def consumption(term, keep_src=False):
                         parts.append(b)
                 else:
                     e = seq(it[3])
-                    parts.append(f"for[{rn(it[1])}]{{{b}}}else{{{e}}}")
+                    if b or e:
+                        parts.append(f"for[{rn(it[1])}]{{{b}}}else{{{e}}}")
             elif k == "while":
                 b = seq(it[2])
                 parts.append(f"while{rn(it[1])}{{{b}}}")
